@@ -624,6 +624,51 @@ def stage_paren_roundtrip(ctx: Ctx):
                                           {**rec, 'after_cut': mid, 'after': m.src, 'diffs': d})
 
 
+IDENT_OWN_PROG = ('import \ufb01.\ufb02 as \ufb03\nfrom \ufb01.\ufb02 import \ufb01 as \ufb02\nfrom .\ufb03 import a\ndef \ufb01(\ufb01, *\ufb02, \ufb03=1, **\ufb04): pass\nclass \ufb01: pass\nx.\ufb01 = \ufb02\nf(\ufb01=1)\n'
+                  'def h():\n    global \ufb01, \ufb02\n    nonlocal_ = 1\nmatch v:\n  case {**\ufb01}: pass\n  case [*\ufb01]: pass\n  case C(\ufb01=1): pass\n  case t as \ufb01: pass\n'
+                  'try: pass\nexcept E as \ufb01: pass\ntype T[\ufb01, *\ufb02, **\ufb03] = \ufb01\nimport \U0001d426\U0001d428\U0001d41d.sub, \uff4f\uff53\n')
+
+
+def stage_identifier_roundtrip(ctx: Ctx):
+    """deterministic: every identifier of a program whose identifiers are written with compatibility characters is put back as its own SOURCE text (the un-normalised spelling)
+    and as its own value: the tree is the original one and equals the parse of the new source"""
+    import fst
+    import unicodedata
+    src = IDENT_OWN_PROG
+    probe = fst.FST(src, 'exec')
+    orig = ast.parse(src)
+    # the spellings used in the source, by normalised name
+    spell = {}
+    import io, tokenize
+    for t in tokenize.generate_tokens(io.StringIO(src).readline):
+        if t.type == tokenize.NAME:
+            spell.setdefault(unicodedata.normalize('NFKC', t.string), t.string)
+    sites = []
+    for f in probe.walk(True):
+        for fld in f.a._fields:
+            v = getattr(f.a, fld, None)
+            if isinstance(v, str) and not isinstance(f.a, ast.Constant):
+                sites.append((probe.child_path(f), fld, None, v))
+            elif isinstance(v, list) and v and isinstance(v[0], str):
+                sites += [(probe.child_path(f), fld, i, x) for i, x in enumerate(v)]
+    for path, fld, idx, v in sites:
+        own = '.'.join(spell.get(p_, p_) for p_ in v.split('.'))
+        for new, what in ((own, 'own-source-text'), (v, 'own-value')):
+            root = fst.FST(src, 'exec')
+            f = root.child_from_path(path)
+            rec = {'src': src, 'node': repr(f), 'field': fld, 'idx': idx, 'put': new, 'what': what}
+            try:
+                f.put(new, idx, fld) if idx is not None else f.put(new, fld)
+            except Exception as e:       # every one of these fields takes a plainly written identifier
+                ctx.violation(f'identifier-roundtrip-raise|{type(f.a).__name__}.{fld}|{type(e).__name__}', "putting an identifier's own text back raised", {**rec, 'error': repr(e)[:200]})
+                continue
+            ctx.tick(('ident-roundtrip', str(path), fld, idx, what), 'identifier-roundtrip:' + what)
+            d = cmp_ast(root.a, orig, positions=False) or reparse_diffs(root)
+            if d:
+                ctx.violation(f'identifier-roundtrip|{type(f.a).__name__}.{fld}|{what}', "after putting an identifier's own text back the tree is not the original one / not what the source denotes",
+                              {**rec, 'result_src': root.src, 'diffs': d[:5]})
+
+
 def run(ctx: Ctx):
     ctx.rule = ('(1) strings dense in quotes/backslashes/triple quotes/NUL/non-printables: real repr_str_multiline vs ast.literal_eval and vs the Coq model (output and reader); '
                 '(2) put_docstr/get_docstr with such texts at 7 hosts (indent 0..8, tabs, one-line bodies), rewrite and delete, + indentation model correspondence; '
@@ -643,6 +688,7 @@ def run(ctx: Ctx):
     run_guarded(ctx, stage_roundtrip, progs)
     run_guarded(ctx, stage_clause_roundtrip)
     run_guarded(ctx, stage_paren_roundtrip)
+    run_guarded(ctx, stage_identifier_roundtrip)
 
 
 def replay(path):
